@@ -246,6 +246,7 @@ func run(r *core.Run) {
 	runLiterals(r)
 	runIdents(r)
 	runExprs(r)
+	runSelects(r)
 	runStatements(r)
 	runForms(r)
 	runGrammar(r)
